@@ -473,7 +473,6 @@ func hashList(hs []vt.H) []byte {
 	return b
 }
 
-
 // ---- C13 watch-only nodes are silent -------------------------------------------------
 
 func MonC13() *Mon {
